@@ -152,6 +152,10 @@ func (j JV) Src() string {
 	case "str":
 		return JSStr(j.S)
 	case "arr":
+		if j.S == "shared" && len(j.E) > 0 {
+			// every element is the SAME object (aliasing, not a cycle)
+			return "((function(){var s=" + j.E[0].Src() + ";return [" + strings.TrimSuffix(strings.Repeat("s,", len(j.E)), ",") + "]})())"
+		}
 		var p []string
 		for _, e := range j.E {
 			if e.K == "hole" {
@@ -167,6 +171,12 @@ func (j JV) Src() string {
 		return "[" + s + "]"
 	case "obj":
 		var p []string
+		if j.S == "shared" && len(j.E) > 0 {
+			for _, k := range j.Keys {
+				p = append(p, JSStr(k)+":s")
+			}
+			return "((function(){var s=" + j.E[0].Src() + ";return ({" + strings.Join(p, ",") + "})})())"
+		}
 		for i, k := range j.Keys {
 			p = append(p, JSStr(k)+":"+j.E[i].Src())
 		}
